@@ -60,7 +60,11 @@ Definition gen_src_info (e : engine) : G src_info :=
         gen* ed := gopt (gen* x := gen_edf None in gret (mk_edf (e_port x) (e_steamid x) (e_tv x) (e_keywords x) None)) in
         gret (mk_src proto name map folder game t players maxp bots st en vis vac ship version ed)
   | None =>
-      gen* id := gnum 16 in gen* ed := gopt (gen_edf None) in
+      (* a foreign app id; one time in three the id 0 with no game id in the extra data ("no id") *)
+      gen* z := chance 1 3 in
+      gen* id := (if z then gret 0 else gnum 16) in
+      gen* ed := (if z then gopt (gen* x := gen_edf None in gret (mk_edf (e_port x) (e_steamid x) (e_tv x) (e_keywords x) None))
+                  else gopt (gen_edf None)) in
       gret (mk_src proto name map folder game id players maxp bots st en vis vac ship version ed)
   end.
 
